@@ -7,6 +7,7 @@ import (
 	"errors"
 	"io"
 	"net"
+	"sync"
 	"time"
 )
 
@@ -23,6 +24,7 @@ type vkConn struct {
 	Writes  int
 	FailAt  int // the write with this index (and later ones) fails; -1: never
 	Closed  bool
+	mu      sync.Mutex
 }
 
 func newVkConn() *vkConn { return &vkConn{FailAt: -1} }
@@ -37,6 +39,8 @@ func (c *vkConn) Read(b []byte) (int, error) {
 }
 
 func (c *vkConn) Write(b []byte) (int, error) {
+	c.mu.Lock()
+	defer c.mu.Unlock()
 	i := c.Writes
 	c.Writes++
 	if c.Closed || (c.FailAt >= 0 && i >= c.FailAt) {
@@ -49,6 +53,8 @@ func (c *vkConn) Write(b []byte) (int, error) {
 }
 
 func (c *vkConn) all() []byte {
+	c.mu.Lock()
+	defer c.mu.Unlock()
 	var out []byte
 	for _, w := range c.Written {
 		out = append(out, w...)
@@ -62,3 +68,46 @@ func (c *vkConn) RemoteAddr() net.Addr               { return vkAddr{} }
 func (c *vkConn) SetDeadline(t time.Time) error      { return nil }
 func (c *vkConn) SetReadDeadline(t time.Time) error  { return nil }
 func (c *vkConn) SetWriteDeadline(t time.Time) error { return nil }
+
+// vkPipe is an in-memory net.Conn whose Read blocks until the harness feeds
+// bytes (feed), closes the remote end (hangUp) or the client closes it.
+type vkPipe struct {
+	vkConn
+	in     chan []byte
+	closed chan struct{}
+	rest   []byte
+}
+
+func newVkPipe() *vkPipe {
+	return &vkPipe{vkConn: vkConn{FailAt: -1}, in: make(chan []byte, 64), closed: make(chan struct{})}
+}
+
+func (c *vkPipe) feed(b []byte) { c.in <- append([]byte(nil), b...) }
+func (c *vkPipe) hangUp()       { close(c.in) }
+
+func (c *vkPipe) Read(b []byte) (int, error) {
+	if len(c.rest) == 0 {
+		select {
+		case d, ok := <-c.in:
+			if !ok {
+				return 0, io.EOF
+			}
+			c.rest = d
+		case <-c.closed:
+			return 0, errors.New("use of closed network connection")
+		}
+	}
+	n := copy(b, c.rest)
+	c.rest = c.rest[n:]
+	return n, nil
+}
+
+func (c *vkPipe) Close() error {
+	c.mu.Lock()
+	defer c.mu.Unlock()
+	if !c.Closed {
+		c.Closed = true
+		close(c.closed)
+	}
+	return nil
+}
